@@ -2,7 +2,7 @@
 
 Theorems (coq/props/C15.v over Reuse.v / ReuseSpec.v / ReplLang.v): run_leaves_clean, every run starts on a fresh
 fiber with an empty handler stack and a cleared exception flag, stale_state_harmless, failed_snippet_only_definitions
-(M = S on output, outcome and loader calls at every snippet outside the named class failed_import_poisons_module),
+(M = S on output, outcome and loader calls at every snippet of EVERY history; the pre-367eb72 Mechanism is refuted),
 reset_is_fresh.
 Tie: (a) translator: field list of `struct Vm`, what execute / load_fiber / load_frame / reset / reset_stack /
 runtime_error assign (coq/gen/VmFields.v), compared by computation with the lists hard-wired in Reuse.v;
@@ -268,7 +268,7 @@ def coq_cases(hists, core, tag):
         if len(rows) != len(h) or any(len(r) != 4 for r in rows):
             res.append(None)
             continue
-        names = {"-": "-", "I": "failed_import_poisons_module"}
+        names = {"-": "-"}   # no known class is left (failed_import_poisons_module repaired by 367eb72)
         res.append({"items": " ".join(RENDER[s] for s in h), "spec": [r[0] for r in rows],
                     "mech": [(r[0] if r[1] == "=" else r[1]) + ";cs=" + r[2] for r in rows], "known": [names[r[3]] for r in rows]})
     return res
